@@ -404,6 +404,7 @@ struct C01 {
         }
         ctx.count(QStringLiteral("admitted_pairs"));
         ++ctx.nontrivial;
+        cooccurrence(seedIdx, c, e0, e1);
         // mutation closure (k = 1) of the output-form document
         QList<QDomElement> els;
         collect(e1, els, 0, 6);
@@ -539,6 +540,75 @@ struct C01 {
                 ctx.violation(QStringLiteral("C01/free-text-not-preserved:") + site,
                               QStringLiteral("site %1 keeps 'zzz' but value '%2' comes back as '%3'").arg(showPath(sig), v.left(40), f2 ? got.left(40) : QStringLiteral("(absent)")),
                               caseJson(QStringLiteral("c01"), seedIdx, c.name, QStringLiteral("text:%1@%2").arg(showPath(path), attr), domToBytes(m2)));
+            }
+        }
+    }
+
+    // Combinations of present/absent fields taken from real documents: a child of the seed that does not come back from the round trip
+    // although it does come back once ONE sibling (of another kind) is removed was dropped because of that sibling. Only pairs that
+    // occur together in a corpus document are judged, so mutually exclusive children are never demanded together.
+    static QStringList childCanons(const QDomElement &parent)
+    {
+        QStringList l;
+        for (auto ch = parent.firstChildElement(); !ch.isNull(); ch = ch.nextSiblingElement()) {
+            l << canonXml(ch, true);
+        }
+        return l;
+    }
+    void cooccurrence(int seedIdx, const Codec &c, const QDomElement &e0, const QDomElement &r0)
+    {
+        QList<QDomElement> parents;
+        collect(e0, parents, 0, 1);
+        for (const auto &parent : std::as_const(parents)) {
+            const QString ppath = pathOf(parent, e0);
+            const auto rp0 = findPath(r0, ppath);
+            const QStringList have0 = rp0.isNull() ? QStringList() : childCanons(rp0);
+            for (auto ch = parent.firstChildElement(); !ch.isNull(); ch = ch.nextSiblingElement()) {
+                const QString want = canonXml(ch, true);
+                if (have0.contains(want)) {
+                    continue;
+                }
+                // lost in the full document: does it survive without one of its siblings?
+                for (auto sib = parent.firstChildElement(); !sib.isNull(); sib = sib.nextSiblingElement()) {
+                    if (sib == ch || (sib.tagName() == ch.tagName() && sib.namespaceURI() == ch.namespaceURI())) {
+                        continue;
+                    }
+                    // two encodings of one field (the object stores a single value and writes one of them)
+                    static const QStringList alternativeEncodings = { QStringLiteral("x{jabber:x:delay}|delay{urn:xmpp:delay}") };
+                    const QString a = QStringLiteral("%1{%2}").arg(ch.tagName(), ch.namespaceURI()), b = QStringLiteral("%1{%2}").arg(sib.tagName(), sib.namespaceURI());
+                    if (alternativeEncodings.contains(a + QLatin1Char('|') + b) || alternativeEncodings.contains(b + QLatin1Char('|') + a)) {
+                        continue;
+                    }
+                    QDomDocument d;
+                    d.appendChild(d.importNode(e0, true));
+                    auto victim = findPath(d.documentElement(), pathOf(sib, e0));
+                    if (victim.isNull()) {
+                        continue;
+                    }
+                    victim.parentNode().removeChild(victim);
+                    QDomDocument dm, dr;
+                    const auto m = parseDoc(domToBytes(d.documentElement()), &dm, true);
+                    if (m.isNull() || !c.admit(m)) {
+                        continue;
+                    }
+                    QByteArray out;
+                    QDomElement r;
+                    ++ctx.evaluations;
+                    ++ctx.nontrivial;
+                    ctx.count(QStringLiteral("cooccurrence_probes"));
+                    if (!roundTrip(c, m, &out, &dr, &r)) {
+                        continue;
+                    }
+                    const auto rp = findPath(r, ppath);
+                    if (!rp.isNull() && childCanons(rp).contains(want)) {
+                        const QString cn = ch.tagName(), sn = sib.tagName();
+                        ctx.violation(QStringLiteral("C01/child-lost-only-next-to-sibling:%1:%2+%3").arg(c.name, cn, sn),
+                                      QStringLiteral("<%1 xmlns='%2'/> does not survive the round trip of the corpus document, but does once its sibling <%3 xmlns='%4'/> is removed: %5")
+                                          .arg(cn, ch.namespaceURI(), sn, sib.namespaceURI(), QString::fromUtf8(domToBytes(e0).left(400))),
+                                      caseJson(QStringLiteral("c01"), seedIdx, c.name, QStringLiteral("cooccurrence:%1+%2").arg(cn, sn), domToBytes(e0)));
+                        break;
+                    }
+                }
             }
         }
     }
